@@ -10,7 +10,7 @@ constructor call found no member").  Props/C19Ctl.lean proves (`C19_gen_ctl_*`),
 function computes what the hand-written model function computes — so a rewrite of one of these methods that keeps its
 meaning (guard clauses instead of nested ifs, a reordered test) keeps the theorems, and one that changes it breaks them.
 
-Supported: `self.<attr> = expr`, `if / elif / else`, `return [True|False]`, `self.logger.*(…)` (skipped), docstrings;
+Supported: `self.<attr> = expr`, local variables (`name = expr`), `if / elif / else`, `return [True|False]`, `self.logger.*(…)` (skipped), docstrings;
 expressions: the five attributes, `<KillChain>.<MEMBER>`, `KillChainStageProgress.<MEMBER>`, `<kc>.initial_stage(<kc>)`,
 `self.selected_kill_chain(e)` (as the whole right-hand side of an assignment: may raise), `e + 1`, `==`, `!=`, `in (…)`, `not in (…)`, `and`, `or`,
 `not`, `True`, `False`, the two settings `repeat_kill_chain` / `repeat_kill_chain_stages`, and a few named opaque tests that
@@ -52,6 +52,7 @@ class Tr:
 
     def __init__(self, members: Dict[str, int], progress: Dict[str, int], opaque: Dict[str, str], ret_bool: bool):
         self.members, self.progress, self.opaque, self.ret_bool = members, progress, opaque, ret_bool
+        self.locals: Dict[str, Tuple[str, str]] = {}      # local variable -> (Lean name, type)
 
     def expr(self, e: ast.AST) -> Tuple[str, str]:
         src = ast.unparse(e)
@@ -59,6 +60,8 @@ class Tr:
             return self.opaque[src], "bool"
         if src in ATTR:
             return "s." + ATTR[src][0], ATTR[src][1]
+        if isinstance(e, ast.Name) and e.id in self.locals:
+            return self.locals[e.id]
         if src in SETTINGS:
             return SETTINGS[src], "bool"
         if isinstance(e, ast.Constant) and isinstance(e.value, bool):
@@ -133,6 +136,19 @@ class Tr:
                 if ast.unparse(st.value) != "('do-nothing', {})":
                     raise Unsupported("chosen_action set to something other than do-nothing: " + ast.unparse(st.value)[:80])
                 return f"{pad}let s : Ctl := {{ s with nothing := true }}\n" + self.stmts(rest, ind)
+            if isinstance(st.targets[0], ast.Name):         # a local variable
+                lean = "v_" + tgt
+                v = st.value
+                if isinstance(v, ast.Call) and ast.unparse(v.func) == "self.selected_kill_chain" and len(v.args) == 1 and not v.keywords:
+                    arg, at = self.expr(v.args[0])
+                    if at != "int":
+                        raise Unsupported("enum constructor on a non-integer")
+                    self.locals[tgt] = (lean, "int")
+                    return (f"{pad}if mem {arg} then\n{pad}  let {lean} : Int := {arg}\n{self.stmts(rest, ind + 1)}\n"
+                            f"{pad}else\n{pad}  {self.raised()}")
+                val, vt = self.expr(v)
+                self.locals[tgt] = (lean, vt)
+                return f"{pad}let {lean} : {'Int' if vt == 'int' else 'Bool'} := {val}\n" + self.stmts(rest, ind)
             if tgt not in ATTR:
                 raise Unsupported("assignment to " + tgt)
             field, ty = ATTR[tgt]
@@ -151,8 +167,12 @@ class Tr:
             t, tt = self.expr(st.test)
             if tt != "bool":
                 raise Unsupported("truthiness of a non-Boolean test: " + ast.unparse(st.test)[:80])
-            return (f"{pad}if {t} then\n{self.stmts(list(st.body) + ([] if _ends(st.body) else rest), ind + 1)}\n"
-                    f"{pad}else\n{self.stmts(list(st.orelse) + ([] if _ends(st.orelse) else rest), ind + 1)}")
+            saved = dict(self.locals)                        # each branch (with its continuation) has its own scope
+            then_ = self.stmts(list(st.body) + ([] if _ends(st.body) else rest), ind + 1)
+            self.locals = dict(saved)
+            else_ = self.stmts(list(st.orelse) + ([] if _ends(st.orelse) else rest), ind + 1)
+            self.locals = saved
+            return f"{pad}if {t} then\n{then_}\n{pad}else\n{else_}"
         raise Unsupported("statement " + ast.unparse(st)[:100])
 
     def raised(self) -> str:
